@@ -220,6 +220,16 @@ func amplifiers(c *vp.Child) {
 				if delta > bound {
 					c.Violation("heap-growth", a.Name+" N="+n, fmt.Sprintf("%s: the Go heap's cumulative allocation grew by %d bytes across the call (bound 8 MB + 64*M = %d); outcome %s, accounted memory %d", what, delta, bound, o.Kind, o.UsedMem), text)
 				}
+				// every amplifier returns the size of what it built: a context that
+				// survives cannot have built more than its limit
+				if o.Kind == gl.OK && strings.HasPrefix(o.Rets, "i:") {
+					var size uint64
+					fmt.Sscanf(o.Rets, "i:%d", &size)
+					// (only the templates that return `#` of a value they still hold)
+					if size > M && strings.Contains(text, "return #") && a.Name != "table.remove-loop" {
+						c.Violation("built-more-than-limit", a.Name, fmt.Sprintf("%s: the context ended 'done' having built a value of %d bytes (accounted memory %d, limit %d)", what, size, o.UsedMem, M), text)
+					}
+				}
 				if o.CtxStatus == "killed" && o.UsedMem >= M && strings.Contains(o.ErrMsg, "emory") {
 					c.Violation("used-reaches-limit", a.Name, fmt.Sprintf("%s: accounted %d", what, o.UsedMem), text)
 				}
